@@ -1259,14 +1259,20 @@ def gen_untouched(rng, backend):
     return {"n": n, "backend": backend, "cmds": cm, "args": args, "fail": fail, "compile_options": co,
             "precompile": rng.random() < 0.4, "precompile_optimize": (not symbolic) and rng.random() < 0.6,
             "call_optimize": (not symbolic) and rng.random() < 0.4,
-            "sibling": "ff" in feat and rng.random() < 0.35, "feat": sorted(feat)}
+            "sibling": ("ff" in feat or "free" in feat) and rng.random() < 0.4,
+            "free_default": rng.choice([None, 0.2, -0.6]) if "free" in feat else None, "feat": sorted(feat)}
 
 
 def untouched_verdicts(spec):
     """Yields (signature, text) for every way the user's program was altered / did not reproduce."""
     n, backend, tol = spec["n"], spec["backend"], spec_tol(spec)
     out = []
-    P = s_build(sf.Program(n), spec["cmds"], {}, 0)
+    def set_default(prog, v):
+        if v is not None and "a" in prog.free_params:
+            prog.free_params["a"].default = v
+        return prog
+
+    P = set_default(s_build(sf.Program(n), spec["cmds"], {}, 0), spec.get("free_default"))
     fp0 = fingerprint(P)
     if spec.get("call_optimize"):
         try:
@@ -1312,12 +1318,22 @@ def untouched_verdicts(spec):
             out.append(("apply:p0-not-restored-after-exception" if d == "op.p" else "untouched:failed-run:" + d,
                         "a run that raised (unbound free parameter) left the user's program changed (%s)" % d))
     if spec["sibling"]:
-        s_build(sf.Program(n), spec["cmds"], {}, 0)      # an unrelated program built from the same text, never run
+        # an unrelated program built from the same text (own default for its free parameter), never run
+        sib = set_default(s_build(sf.Program(n), spec["cmds"], {}, 0), 0.9)
         d = fp_diff(fp0, fingerprint(P))
         if d:
-            out.append(("params:measured-parameter-retargeted" if d == "op.p" else "untouched:sibling:" + d,
-                        "constructing another program changed this program's measured parameters (%s)" % d))
+            sig = {"op.p": "params:measured-parameter-retargeted", "free": "params:free-parameter-shared-across-programs"}.get(d, "untouched:sibling:" + d)
+            out.append((sig, "constructing another program changed this program (%s)" % d))
             return out, fp0
+        if spec["args"] and "a" in P.free_params and "a" in sib.free_params and spec.get("free_default") is None:
+            # binding a value in one program must not bind the equally named parameter of another one
+            sib.free_params["a"].default = None
+            x = attempt(lambda: new_engine(backend).run(P, args=dict(spec["args"])), backend)
+            y = attempt(lambda: new_engine(backend).run(sib), backend)
+            if x[0] == "ok" and y[0] == "ok":
+                out.append(("params:free-parameter-shared-across-programs",
+                            "after running one program with args=%r an unrelated program with an equally named, unbound free parameter runs instead of raising ParameterError" % (spec["args"],)))
+                return out, fp0
     co = None if spec["compile_options"] is None else dict(spec["compile_options"])
     co_before = copy.deepcopy(co)
     a = attempt(lambda: new_engine(backend).run(P, args=dict(spec["args"]), compile_options=co), backend)
@@ -1504,7 +1520,12 @@ def search(ctx):
     for _ in range(ctx.budget(60, 2400)):
         spec = gen_compose(rng, pick())
         d = {"check": "compose", "spec": spec}
-        out = compose_patterns(spec)
+        try:
+            out = compose_patterns(spec)
+        except Exception as e:  # noqa: BLE001  (building the segments themselves failed)
+            ctx.case({"compose": spec}, nontrivial=True, bucket="compose:build-raises")
+            ctx.counterexample("segments:building-raises:" + type(e).__name__, "building the program segments raised %r" % e, d)
+            continue
         v = compose_verdict(spec, out)
         ctx.case({"compose": spec, "A": brief(out["A"]), "C": brief(out["C"])}, nontrivial=any(len(x) > 0 for x in spec["segs"][1:]),
                  bucket="compose:%s:%s" % (spec["backend"], "+".join(spec["feat"]) or "plain"))
@@ -1514,13 +1535,19 @@ def search(ctx):
     ff_sweep(ctx)
     for _ in range(ctx.budget(30, 1200)):
         spec = gen_reset(rng, "bosonic" if rng.random() < 0.2 else pick())
-        v = reset_verdict(spec)
+        try:
+            v = reset_verdict(spec)
+        except Exception as e:  # noqa: BLE001
+            v = ("reset:session-raises:" + type(e).__name__, "building / resetting raised %r" % e)
         ctx.case({"reset": spec}, nontrivial=True, bucket="reset:" + spec["backend"])
         if v:
             ctx.counterexample(v[0], v[1], {"check": "reset", "spec": spec})
     for _ in range(ctx.budget(100, 2400)):
         spec = gen_untouched(rng, pick())
-        vs, _ = untouched_verdicts(spec)
+        try:
+            vs, _ = untouched_verdicts(spec)
+        except Exception as e:  # noqa: BLE001
+            vs = [("untouched:building-raises:" + type(e).__name__, "building the program raised %r" % e)]
         ctx.case({"untouched": spec}, nontrivial=bool(spec["fail"] or spec["precompile"] or spec["sibling"] or
                                                         any("same_as" in c[4] or c[3] for c in spec["cmds"])),
                  bucket="untouched:%s:%s" % (spec["backend"], spec["fail"] or "ok"))
